@@ -97,6 +97,10 @@ func relaysObj(r *rand.Rand, proposerLevel bool) string {
 }
 
 func genConfig(r *rand.Rand) string {
+	if r.Intn(25) == 0 {
+		// not an object at all (an empty file, a server answering "null", an HTML error page ...)
+		return []string{"null", "[]", `"config"`, "", " ", "0", "true", "{}", `{"version":2}`, "<html>502</html>", "nul", `{"version":null}`}[r.Intn(12)]
+	}
 	if r.Intn(5) == 0 { // legacy
 		var f []string
 		entry := func() string {
@@ -726,7 +730,7 @@ var surfaces = []surface{
 
 func run(c *harness.Ctx) {
 	harness.InitBLS()
-	n := c.N(4000, 400000)
+	n := c.N(4000, 120000)
 	total := 0
 	for _, s := range surfaces {
 		total += s.weight
@@ -768,7 +772,7 @@ func main() {
 		Run:           run,
 		CrashIsResult: true,
 		MinDistinct:   100,
-		ChildTimeout:  func(string) time.Duration { return 40 * time.Minute },
+		ChildTimeout:  func(string) time.Duration { return 120 * time.Minute },
 		Assumptions:   []string{"inputs are limited to what the client libraries' decoders can deliver (mandatory pointers present)", "committee sizes up to 2^20 only (larger values are allocation requests in disguise and are not driven)", "a pre-Altair chain specification (no sync committee period) is out of scope"},
 	})
 }
